@@ -269,6 +269,23 @@ def run_model(lines, timeout=1800):
     return p.stdout.splitlines()
 
 
+def run_model_sharded(lines, shards=16, timeout=1800):
+    """run_model over independent (stateless) command lines, split over several model-runner processes; results in input order"""
+    import concurrent.futures
+    if len(lines) < 4 * shards:
+        return run_model(lines, timeout)
+    size = (len(lines) + shards - 1) // shards
+    chunks = [lines[i:i + size] for i in range(0, len(lines), size)]
+    with concurrent.futures.ThreadPoolExecutor(max_workers=shards) as ex:
+        outs = list(ex.map(lambda c: run_model(c, timeout), chunks))
+    res = []
+    for c, o in zip(chunks, outs):
+        if len(o) != len(c):
+            raise CheckError("model runner returned %d lines for %d commands" % (len(o), len(c)))
+        res += o
+    return res
+
+
 # ------------------------------------------------------------ harnesses ----
 
 def build_harness(name, features=None, extra_env=None):
